@@ -213,6 +213,7 @@ PURE_PREFIXES = [
     r"byteorder::", r"smallvec::", r"crc::", r"hmac::", r"sha1::", r"sha2::", r"md5::", r"digest::", r"crypto_common::",
     r"generic_array::", r"block_buffer::", r"subtle::", r"typenum::", r"thiserror::",
     r"tracing::", r"tracing_core::", r"tracing_attributes::",
+    r"arbitrary::",      # feature `arbitrary`: derive(Arbitrary) input generators (consume a caller-supplied byte buffer)
     r"drop_glue<",
 ]
 INSTANT_OK = re.compile(
